@@ -30,7 +30,7 @@ def fileOf (codec : Codec) (crc : Checksum) (nm : B) (es : List (Hv.Migrate.Entr
 /-- the V2 engine as the migrator sees it: written by the C01 writer model, read by the C01 `loadIndex` -/
 def storV2 (codec : Codec) (crc : Checksum) : Hv.Migrate.V2 B B where
   write nm es := fileOf codec crc nm es
-  append f es := (openExisting f).map fun s => (runOps goodCfg codec crc 0 { file := f, sess := some s } (opsOf es)).file
+  append f es := (openExisting goodCfg f).map fun fs => (runOps goodCfg codec crc 0 { file := fs.1, sess := some fs.2 } (opsOf es)).file
   accepts e := accepts goodCfg (entOf e)
   acceptsName nm := !(65535 < nm.length)
   loadMap f k := match loadIndex goodCfg codec.toDecoder crc f with
